@@ -216,6 +216,9 @@ type Conn struct {
 	writeLock            sync.Mutex
 
 	encryptedPackets []addrPkt
+	// Application data accepted while the handshake was still running; Read
+	// hands it over first.
+	earlyApplicationData [][]byte
 
 	connectionClosedByUser bool
 	closeNotifyLock        sync.Mutex
@@ -609,6 +612,12 @@ func (c *Conn) Read(buff []byte) (n int, err error) { //nolint:cyclop
 	}
 
 	for {
+		// What arrived while the handshake was still running comes first.
+		if early, ok := c.takeEarlyApplicationData(); ok {
+			if n, done, err := deliver(early); done {
+				return n, err
+			}
+		}
 		select {
 		case <-c.closed.Done():
 			// A payload that was accepted before the connection closed (the
@@ -2320,6 +2329,15 @@ func (c *Conn) handleApplicationDataRecord(
 	}
 
 	isLatestSeqNum := prepared.markPacketAsValid()
+	if c.handshakeEstablished != nil && !c.isHandshakeCompletedSuccessfully() {
+		// The peer may be done and writing while this side still waits for
+		// the end of the handshake. Nobody reads yet - Read waits for the
+		// handshake itself - so handing the payload over could block this
+		// goroutine, which has to receive the rest of the handshake first.
+		c.holdEarlyApplicationData(ctx, content.Data)
+
+		return isLatestSeqNum, packetOutcome{}, nil
+	}
 	select {
 	case c.decrypted <- content.Data:
 	case <-c.closed.Done():
@@ -2327,6 +2345,45 @@ func (c *Conn) handleApplicationDataRecord(
 	}
 
 	return isLatestSeqNum, packetOutcome{}, nil
+}
+
+// holdEarlyApplicationData keeps a payload that arrived before the handshake
+// was complete for the first Read calls. Like the queue of undecryptable
+// records it is bounded; what does not fit is lost, as a datagram may be.
+func (c *Conn) holdEarlyApplicationData(ctx context.Context, data []byte) {
+	c.lock.Lock()
+	if len(c.earlyApplicationData) < maxAppDataPacketQueueSize {
+		c.earlyApplicationData = append(c.earlyApplicationData, data)
+	}
+	c.lock.Unlock()
+
+	// The handshake may have completed meanwhile and a Read may already have
+	// looked at the empty queue: hand over what is held the ordinary way.
+	for c.isHandshakeCompletedSuccessfully() {
+		held, ok := c.takeEarlyApplicationData()
+		if !ok {
+			return
+		}
+		select {
+		case c.decrypted <- held:
+		case <-c.closed.Done():
+			return
+		case <-ctx.Done():
+			return
+		}
+	}
+}
+
+func (c *Conn) takeEarlyApplicationData() ([]byte, bool) {
+	c.lock.Lock()
+	defer c.lock.Unlock()
+	if len(c.earlyApplicationData) == 0 {
+		return nil, false
+	}
+	data := c.earlyApplicationData[0]
+	c.earlyApplicationData = c.earlyApplicationData[1:]
+
+	return data, true
 }
 
 func (c *Conn) handleRecordContent(
